@@ -318,17 +318,15 @@ impl TypeEntry {
         }
     }
 
-    /// Return a string representing the function that can be called to produce
-    /// the value for the given default. If there is no such built-in function,
-    /// the .1 will be Some with a TokenStream for a function that can produce
-    /// that value.
-    pub(crate) fn default_fn(
+    /// Return the path of the function that produces the given default for
+    /// the named property of the named type, and whether it's one of the
+    /// built-in (generic) functions.
+    pub(crate) fn default_fn_name(
         &self,
         default: &serde_json::Value,
-        type_space: &TypeSpace,
         type_name: &str,
         prop_name: &str,
-    ) -> (String, Option<TokenStream>) {
+    ) -> (String, bool) {
         let maybe_builtin = match &self.details {
             // This can only be covered by the intrinsic default
             TypeEntryDetails::Unit => unreachable!(),
@@ -349,8 +347,30 @@ impl TypeEntry {
             _ => None,
         };
 
-        if let Some(fn_name) = maybe_builtin {
-            (fn_name, None)
+        match maybe_builtin {
+            Some(fn_name) => (fn_name, true),
+            None => {
+                let fn_name = sanitize(&format!("{}_{}", type_name, prop_name), Case::Snake);
+                (format!("defaults::{}", fn_name), false)
+            }
+        }
+    }
+
+    /// Return a string representing the function that can be called to produce
+    /// the value for the given default. If there is no such built-in function,
+    /// the .1 will be Some with a TokenStream for a function that can produce
+    /// that value.
+    pub(crate) fn default_fn(
+        &self,
+        default: &serde_json::Value,
+        type_space: &TypeSpace,
+        type_name: &str,
+        prop_name: &str,
+    ) -> (String, Option<TokenStream>) {
+        let (fn_path, builtin) = self.default_fn_name(default, type_name, prop_name);
+
+        if builtin {
+            (fn_path, None)
         } else {
             let n = self.type_ident(type_space, &Some("super".to_string()));
             let value = self
@@ -363,14 +383,14 @@ impl TypeEntry {
                         self,
                     )
                 });
-            let fn_name = sanitize(&format!("{}_{}", type_name, prop_name), Case::Snake);
+            let fn_name = fn_path.trim_start_matches("defaults::");
             let fn_ident = format_ident!("{}", fn_name);
             let def = quote! {
                 pub(super) fn #fn_ident() -> #n {
                     #value
                 }
             };
-            (format!("defaults::{}", fn_name), Some(def))
+            (fn_path.clone(), Some(def))
         }
     }
 }
